@@ -200,6 +200,14 @@ func matchJM(want ref.JM, got jtok, path string) string {
 			return bad("want %v, got %s %s", want.I != 0, got.kind, got.s)
 		}
 	case "time":
+		if y := want.T.UTC().Year(); y < 0 || y > 9999 {
+			// outside RFC 3339's four-digit years the statement cannot be met literally: any JSON
+			// string is accepted (the document must still be valid and everything around it right)
+			if got.kind != "str" {
+				return bad("want a string for time %s, got %s %q", want.T.UTC().Format(time.RFC3339Nano), got.kind, got.s)
+			}
+			return ""
+		}
 		tm, err := time.Parse(time.RFC3339Nano, got.s)
 		if got.kind != "str" || err != nil || !tm.Equal(want.T) {
 			return bad("want time %s, got %s %q", want.T.Format(time.RFC3339Nano), got.kind, got.s)
